@@ -21,3 +21,5 @@ Record setter := Setter { s_target : target; s_scale : scaling; s_default : dec 
 (* how getSymOp reads the constant part of a component, and how images are labelled *)
 Inductive symop_reader := SREval | SRNumeric.
 Inductive label_scheme := LSPlain | LSFresh.
+(* in which order the translators of one _atom_site row are applied (_parse_atom_site_label) *)
+Inductive setter_order := SOColumn | SOTypeFirst | SOTypeFirstCartnLast.
